@@ -360,6 +360,11 @@ func faultClass(backend string, lines []string, faultAt int, kind string, base p
 	return "unknown"
 }
 
+// commitJobKind: PAN-OS commit answered with status="success" but without a usable job id
+func commitJobKind(k string) bool {
+	return k == "commit_nojob" || k == "commit_emptyjob" || k == "commit_textjob"
+}
+
 // nsxBodyKind: status 200 and a body that is not what the request asks for (NSX defines the
 // success of log-in and change requests by the status code; the body is not read there)
 func nsxBodyKind(k string) bool {
@@ -560,6 +565,11 @@ func oracle(c CaseIn, o CaseOut, base, baseE plan) verdict {
 			}
 			if i == 0 && v.replayed {
 				continue // the replay of the unanswered request by net/http (judged by what follows)
+			}
+			if i == 0 && commitJobKind(c.FaultKind) && cl == "show jobs" {
+				// the reply is a well-formed success without a job: that no commit is running
+				// shows when the device rejects the poll for that job -- one poll is in order
+				continue
 			}
 			if isChange[cl] {
 				return fail("change_sent_after_failure", fmt.Sprintf("%q sent after the failure (%s at the reply to line %d, a %s command)", cl, c.FaultKind, o.FaultAt, cls))
@@ -853,7 +863,8 @@ func run(ctx *Ctx) *Result {
 				case s.Backend == "PAN-OS" && strings.Contains(l, "<show><jobs>"):
 					extra = []string{"jobfail", "jobfail_success", "errsuccess"}
 				case s.Backend == "PAN-OS" && strings.Contains(l, "type=commit"):
-					extra = []string{"commitmsg", "errsuccess"}
+					// commit_*: well-formed success replies that carry no (usable) job id
+					extra = []string{"commitmsg", "errsuccess", "commit_nojob", "commit_emptyjob", "commit_textjob"}
 				case s.Backend == "PAN-OS" && strings.Contains(l, "type=config") && !strings.Contains(l, "action=get"):
 					extra = []string{"errsuccess"}
 				case (s.Backend == "ASA" || s.Backend == "IOS") && !sessionLines[l]:
